@@ -141,7 +141,7 @@ fn small_text(r: &mut Rng) -> String {
 }
 
 fn gen_pos(r: &mut Rng) -> Vec<String> {
-    match r.below(12) {
+    match r.below(13) {
         0..=3 => {
             let content = gen_doc(r);
             let lits = with_ctx(|ctx| {
@@ -190,6 +190,24 @@ fn gen_pos(r: &mut Rng) -> Vec<String> {
                 utf16_pos(&content, *r.pick(&inner))
             };
             vec![format!("pos.hover\t{}\t{}\t{}\t{}", hex(content.as_bytes()), spans_string(&lits), line, ch)]
+        }
+        11 => {
+            // end-to-end go-to-definition: `entrypoint Query.<name>` in c.ts, the field in a.ts
+            let name = *r.pick(&["Home", "Avatar", "x1", "_p"]);
+            let pre_a = gen_around(r, 14);
+            let pre_c = gen_around(r, 14);
+            let a = format!(
+                "{}export const {} = iso(`{}field Query.{} @component {{\n    me {{ name, }}\n  }}\n`)(function H() {{ return null }}){}\n",
+                pre_a,
+                name,
+                *r.pick(&["\n  ", "", " ", "\r\n"]),
+                name,
+                gen_around(r, 6)
+            );
+            let c = format!("{}iso(`{}entrypoint Query.{}`){}", pre_c, *r.pick(&["", "\n", " "]), name, gen_around(r, 6));
+            let off = c.find(&format!("Query.{}", name)).unwrap() + 6 + r.below(name.len());
+            let (line, ch) = utf16_pos(&c, off);
+            vec![format!("pos.goto\t{}\t{}\t{}\t{}\t{}", hex(a.as_bytes()), hex(c.as_bytes()), line, ch, hex(name.as_bytes()))]
         }
         _ => {
             let content = gen_doc(r);
@@ -275,6 +293,47 @@ fn run_pos(f: &[&str]) -> String {
                         l.range.start.line, l.range.start.character, l.range.end.line, l.range.end.character
                     ),
                 }
+            })
+        }
+        "pos.goto" => {
+            let a = text_arg(f, 1);
+            let c = text_arg(f, 2);
+            let line: u32 = f[3].parse().unwrap();
+            let ch: u32 = f[4].parse().unwrap();
+            with_ctx(|ctx| {
+                let db = &mut ctx.lsp.compiler_state.db;
+                db.insert_iso_literal(ctx.proj.rel("src/ga.ts"), a.clone());
+                db.insert_iso_literal(ctx.proj.rel("src/gc.ts"), c.clone());
+                let uri = ctx.proj.uri("src/gc.ts");
+                let r = lv::on_goto_definition(
+                    &ctx.lsp,
+                    lsp_types::GotoDefinitionParams {
+                        text_document_position_params: lsp_types::TextDocumentPositionParams {
+                            text_document: TextDocumentIdentifier { uri },
+                            position: lsp_types::Position { line, character: ch },
+                        },
+                        work_done_progress_params: Default::default(),
+                        partial_result_params: Default::default(),
+                    },
+                );
+                let ans = match r {
+                    Ok(Some(lsp_types::GotoDefinitionResponse::Scalar(l))) => {
+                        let path = l.uri.path().as_str().to_string();
+                        let file = path.rsplit("/src/").next().unwrap_or("").to_string();
+                        format!(
+                            "src/{}\t{}\t{}\t{}\t{}",
+                            file, l.range.start.line, l.range.start.character, l.range.end.line, l.range.end.character
+                        )
+                    }
+                    Ok(Some(_)) => "other".to_string(),
+                    Ok(None) => "none".to_string(),
+                    Err(e) => format!("err:{:?}", e).replace([' ', '\t'], "_"),
+                };
+                // leave no second definition behind for the next case
+                let db = &mut ctx.lsp.compiler_state.db;
+                db.remove_iso_literal(ctx.proj.rel("src/ga.ts"));
+                db.remove_iso_literal(ctx.proj.rel("src/gc.ts"));
+                ans
             })
         }
         _ => "bad-op".to_string(),
@@ -467,6 +526,48 @@ fn effective(lsp: &Lsp, proj: &Proj, file: &str) -> Option<String> {
             .map(|s| s.content.clone())
     })
     .unwrap_or(Some("<panic>".to_string()))
+}
+
+/// `(entrypoint?, Type, name)` of every iso literal header in the text
+fn decl_heads(text: &str) -> Vec<(bool, String, String)> {
+    let mut out = vec![];
+    for (i, _) in text.match_indices('`') {
+        let rest = text[i + 1..].trim_start();
+        let word = |s: &str| -> (String, usize) {
+            let n = s.find(|c: char| !(c.is_ascii_alphanumeric() || c == '_')).unwrap_or(s.len());
+            (s[..n].to_string(), n)
+        };
+        let (kw, n) = word(rest);
+        if kw != "field" && kw != "pointer" && kw != "entrypoint" {
+            continue;
+        }
+        let rest = rest[n..].trim_start();
+        let (ty, n) = word(rest);
+        let rest = rest[n..].trim_start();
+        if ty.is_empty() || !rest.starts_with('.') {
+            continue;
+        }
+        let rest = rest[1..].trim_start();
+        let (name, _) = word(rest);
+        if !name.is_empty() {
+            out.push((kw == "entrypoint", ty, name));
+        }
+    }
+    out
+}
+
+/// Several literals declare the same thing: which one the compiler reports or resolves to depends
+/// on hash-map iteration order, so two servers on identical contents may answer differently.
+fn ambiguous(effs: &[Option<String>]) -> bool {
+    let mut seen = std::collections::BTreeSet::new();
+    for t in effs.iter().flatten() {
+        for h in decl_heads(t) {
+            if !seen.insert(h) {
+                return true;
+            }
+        }
+    }
+    false
 }
 
 /// everything a client can observe for one server: effective contents first, then the
@@ -664,6 +765,15 @@ fn run_state(f: &[&str]) -> String {
                 let mut nondet = false;
                 let diag_of = |o: &Vec<(String, String)>| o.iter().find(|(k, _)| k == "diag").map(|(_, v)| v.clone()).unwrap_or_default();
                 let anon = |d: &str| d.split('\n').nth(1).unwrap_or("").to_string();
+                let effs_now: Vec<Option<String>> = inc
+                    .iter()
+                    .filter(|(k, _)| k.starts_with("eff:"))
+                    .map(|(_, v)| if v == "~" { None } else { Some(v.clone()) })
+                    .collect();
+                if !kinds.is_empty() && !kinds.contains(&"eff".to_string()) && panicked.is_empty() && ambiguous(&effs_now) {
+                    // duplicate declarations: the answers are not a function of the contents
+                    nondet = true;
+                }
                 if kinds == vec!["diag".to_string()] && anon(&diag_of(&inc)) == anon(&diag_of(&fr)) {
                     // the same diagnostics, attributed to another of several identical files
                     nondet = true;
